@@ -19,6 +19,7 @@ ASSUMPTIONS = [
     "update uses pandas data whose index continues the training index or repeats its last 1-2 labels (the new rows win); the reference is fit on new.combine_first(old)",
     "outputs are compared at 1e-12 relative; exceptions must have the same class in the real and in the history-free execution",
     "the history-free execution receives the very same data objects as the real one (not copies): a deep copy can change the memory layout, hence the summation order and the last bits, hence the tie-breaking on exactly tied scores; mutation of the caller's data is detected by the pristine-copy invariant instead",
+    "objects whose re-fit (or update) raised are retired from the comparison - detectors and stand-alone scorers alike: what they return afterwards is not defined by the property",
     "change / local-anomaly detectors whose cost has a fixed parameter have identically zero scores (additive cost): their detections are rounding noise, so only threshold and scores are compared (1e-9 x scale)",
 ]
 
@@ -477,6 +478,12 @@ class Interpreter:
         self._same_outcome("scorer.fit", op, real, fresh, compare_value=False)
         if real[0] == "ok":
             m["train"] = op["data"]
+        elif m["train"] is not None:
+            # a failed re-fit leaves an object whose state the documentation does not define (as for detectors): retire it
+            self.sc.pop(op["slot"], None)
+            self.sc_model.pop(op["slot"], None)
+            self.stats["retired"] = self.stats.get("retired", 0) + 1
+            return
         self.stats["datasets_per_object"].setdefault(("sc", op["slot"]), set()).add(op["data"])
 
     def op_evaluate(self, op):
